@@ -30,14 +30,36 @@ class StrNS(metaclass=_StrMeta):
     """Stand-in for the `str` builtin inside fcp.parser: identity on atoms, isinstance-compatible."""
 
     def __new__(cls, x=""):
+        if type(x) is Leaf:
+            return x.value          # str(token) is the token's text
         return x if type(x) in (SymAtom, SymText) else str(x)
 
 
 class Leaf:
-    """Stands in for a CNAME token: the transformer only reads .value."""
+    """Stands in for a CNAME token whose text is an atom: .value / str() give the atom, comparisons are the atom's,
+    position attributes are those of the token it replaces; anything that needs the text as a Python str is an
+    EngineLimit (never a silent placeholder)."""
 
-    def __init__(self, atom):
+    def __init__(self, atom, token=None):
         self.value = atom
+        self._token = token
+
+    def __eq__(self, o):
+        return self.value == (o.value if type(o) is Leaf else o)
+
+    def __ne__(self, o):
+        return self.value != (o.value if type(o) is Leaf else o)
+
+    def __hash__(self):
+        return 0
+
+    def __str__(self):
+        raise EngineLimit("the text of a symbolic identifier token was needed as a Python str")
+
+    def __getattr__(self, name):
+        if name.startswith("__") or self.__dict__.get("_token") is None:
+            raise AttributeError(name)
+        return getattr(self.__dict__["_token"], name)
 
 
 class World:
@@ -123,7 +145,7 @@ class World:
 
         if isinstance(t, Tree):
             if t.data == "identifier" and PLACEHOLDER.match(str(t.children[0].value)):
-                return Tree(t.data, [Leaf(self.atom(str(t.children[0].value)))], t.meta)
+                return Tree(t.data, [Leaf(self.atom(str(t.children[0].value)), t.children[0])], t.meta)
             return Tree(t.data, [self.subst(c) for c in t.children], t.meta)
         return t
 
@@ -188,6 +210,13 @@ C08_TEMPLATES = [
                                  "struct N3 { g @0: Optional[[R1, 4]], }\n"},
          decls={"N1": "struct", "N2": "alias", "N3": "struct"},
          refs={"R1": (["N1"], "N3", "g")}),
+    dict(name="same_named_module_files",     # p/t.fcp and c/t.fcp: same base name, declarations at the same positions
+         files={"main.fcp": V3 + "mod p.t;\nmod c.b;\nstruct N4 { x @0: R2, }\n",
+                "p/t.fcp": V3 + "struct N1 { a @0: u8, }\n",
+                "c/b.fcp": V3 + "mod t;\nstruct N3 { y @0: R1, }\n",
+                "c/t.fcp": V3 + "struct N2 { a @0: u8, }\n"},
+         decls={"N1": "struct", "N2": "struct", "N3": "struct", "N4": "struct"},
+         refs={"R1": (["N2"], "N3", "y"), "R2": (["N1", "N2", "N3"], "N4", "x")}),
     dict(name="module_cannot_see_importer",
          files={"main.fcp": V3 + "enum N1 { A = 0, }\nmod m;\nstruct N3 { y @0: R2, }\n",
                 "m.fcp": V3 + "struct N2 { z @0: R1, }\n"},
